@@ -4,6 +4,7 @@
 mod abi;
 mod binder;
 mod common;
+mod drive_abi;
 mod drive_gas;
 mod drive_gateway;
 mod drive_its;
@@ -79,14 +80,14 @@ fn compare(inst: &J, step: &J, pre: &J, obs: &common::Obs, proj: &J) -> Option<J
     }
     if exp_ok {
         if exp["ret"] != json!("unit") && exp["ret"] != obs.ret {
-            return Some(json!({"kind": "ret", "spec": exp["ret"], "code": obs.ret}));
+            return Some(json!({"kind": "ret", "spec": exp["ret"], "code": obs.ret, "diffs": state_diffs(&step["post"], proj)}));
         }
         let sev: Vec<J> = exp["ev"].as_array().cloned().unwrap_or_default();
         // only event kinds the specification speaks about are compared
         let kinds: Vec<String> = inst["evkinds"].as_array().map(|a| a.iter().map(|x| x.as_str().unwrap().to_string()).collect()).unwrap_or_default();
         let cev: Vec<J> = obs.ev.iter().filter(|e| kinds.is_empty() || kinds.contains(&e["k"].as_str().unwrap_or("").to_string())).cloned().collect();
         if !multiset_eq(&sev, &cev) {
-            return Some(json!({"kind": "events", "spec": sev, "code": cev}));
+            return Some(json!({"kind": "events", "spec": sev, "code": cev, "diffs": state_diffs(&step["post"], proj)}));
         }
         let d = state_diffs(&step["post"], proj);
         if !d.is_empty() {
@@ -118,6 +119,16 @@ fn replay_walk(module: &str, inst: &J, walk: &J) -> J {
         let obs = b.exec(&step["act"]);
         let proj = b.project();
         if let Some(mut div) = compare(inst, step, &pre, &obs, &proj) {
+            // a recorded deviation: the step also carries what the design says; matching THAT means the
+            // finding no longer reproduces (the walk still ends here: later states assume the deviation)
+            if let Some(alt) = step.get("alt") {
+                let mut s2 = step.clone();
+                s2["exp"] = alt["exp"].clone();
+                s2["post"] = alt["post"].clone();
+                if compare(inst, &s2, &pre, &obs, &proj).is_none() {
+                    div = json!({"kind": "intended", "dev": step["exp"]["dev"]});
+                }
+            }
             div["step"] = json!(i);
             div["act"] = step["act"].clone();
             div["exp"] = step["exp"].clone();
